@@ -7,12 +7,14 @@ import (
 	"bufio"
 	"context"
 	"encoding/json"
+	"errors"
 	"fmt"
 	"io"
 	"net"
 	"sort"
 	"strings"
 	"sync"
+	"sync/atomic"
 	"time"
 
 	"github.com/emitter-io/emitter/internal/broker"
@@ -40,8 +42,17 @@ func (quiet) Printf(format string, v ...interface{})        {}
 // last thing Conn.Close() does (after the unsubscribe loop and the last will).
 type srvSock struct {
 	net.Conn
-	done chan struct{}
-	once sync.Once
+	done     chan struct{}
+	once     sync.Once
+	failNext int32 // the next write reports an error (after the bytes went through)
+}
+
+func (s *srvSock) Write(p []byte) (int, error) {
+	n, err := s.Conn.Write(p)
+	if err == nil && atomic.CompareAndSwapInt32(&s.failNext, 1, 0) {
+		return n, errors.New("write: broken pipe (injected)")
+	}
+	return n, err
 }
 
 func (s *srvSock) Close() error {
@@ -478,6 +489,10 @@ func history(lic license.License, mqttMode bool, nClients, steps int, script []s
 		x := r.Intn(100)
 		if sc != nil {
 			x = sc.x
+		}
+		if sc != nil && x == 91 { // the next write of the broker to this connection reports an error
+			atomic.StoreInt32(&cl.srv.failNext, 1)
+			continue
 		}
 		switch {
 		case x < 26: // subscribe
@@ -926,6 +941,15 @@ func main() {
 			{ci: 0, x: 0, topic: narrow}, {ci: 0, x: 0, topic: broad}, {ci: 0, x: 99, how: v}, {ci: 1, x: 85, topic: "a/b/"}}
 		t, h := history(lics[v%3], false, 2, 0, sc)
 		sh.Add(t, h, "scenario/overlapping-filters-of-one-connection", true)
+	}
+	// directed scenarios: a delivery to a connection fails at the socket (the bytes went through, the
+	// write reports an error); the connection lives on and ends later: its will is published once, then
+	for v := 0; v < 4; v++ {
+		sc := []scriptStep{{ci: 0, will: "a/will/", key: 0}, {ci: 1}, {ci: 1, x: 0, topic: "a/will/"}, {ci: 0, x: 0, topic: "a/b/"},
+			{ci: 0, x: 91}, {ci: 1, x: 50, topic: "a/b/"}, {ci: 1, x: 50, topic: "a/b/"}, {ci: 1, x: 85, topic: "a/b/"},
+			{ci: 0, x: 50, topic: "a/b/"}, {ci: 0, x: 99, how: v}, {ci: 1, x: 85, topic: "a/b/"}}
+		t, h := history(lics[v%3], false, 2, 0, sc)
+		sh.Add(t, h, "scenario/failed-write-then-end", true)
 	}
 	for _, n := range []int{150, 260} {
 		t, h := burst(lics[n%3], n)
